@@ -492,8 +492,24 @@ pub fn expr(s: &S) -> SimpleExpr {
         "isin" => expr(&l[0]).is_in(l[1..].iter().map(value)),
         "isnotin" => expr(&l[0]).is_not_in(l[1..].iter().map(value)),
         "intuples" => expr(&l[0]).in_tuples(l[1..].iter().map(|t| {
-            let vs: Vec<Value> = t.list().iter().map(value).collect();
-            ValueTuple::Many(vs)
+            let mut vs: Vec<Value> = t.list().iter().map(value).collect();
+            // the ValueTuple variant of the arity for part of the cases
+            if shash(t) % 3 == 0 {
+                return ValueTuple::Many(vs);
+            }
+            match vs.len() {
+                1 => ValueTuple::One(vs.remove(0)),
+                2 => {
+                    let b = vs.remove(1);
+                    ValueTuple::Two(vs.remove(0), b)
+                }
+                3 => {
+                    let c = vs.remove(2);
+                    let b = vs.remove(1);
+                    ValueTuple::Three(vs.remove(0), b, c)
+                }
+                _ => ValueTuple::Many(vs),
+            }
         })),
         "isnull" => expr(&l[0]).is_null(),
         "isnotnull" => expr(&l[0]).is_not_null(),
